@@ -24,6 +24,7 @@ class FlatSession(mgr.Session):
         self.mgr = mgr.make_manager(kind, self.sim, shuffle)
         self.tape = Tape(tape)
         self.ops, self.trace, self.last, self.dead = [], [], None, False
+        self._init_shadow(kind, script)
 
 
 def play_random(rng, sess, max_ops, reported_done=None):
@@ -58,7 +59,7 @@ def play_random(rng, sess, max_ops, reported_done=None):
 
 class C08Prop(core.Prop):
     pid = "C08"
-    lean_targets = ["Abmarl.Props.C08"]
+    lean_targets = ["Abmarl.Props.C08", "Abmarl.Props.C13", "Abmarl.Props.C14", "Abmarl.Props.C20"]
     rule = ("used-versus-fresh twins on the real code: a manager / OpenSpiel adapter / GymABS is dirtied by a generated "
             "prefix history (1-3 episodes, each cut mid-turn, after finishes, after all-done), then reset and a follow-up "
             "episode are played under a fresh seed; a newly built copy plays the same follow-up under the same seed; the "
@@ -156,7 +157,57 @@ class C08Prop(core.Prop):
         return core.Case(desc, line, wire.enc(snaps), key=json.dumps(desc, sort_keys=True),
                          nontrivial=sum(1 for c in calls if c[0] == "r") > 1, tags=["gymabs"])
 
+    # -- layers whose models live in other property modules: their multi-episode cases are forwarded -------
+    def _subs(self):
+        if not hasattr(self, "_sub_props"):
+            import p_place
+            import p_comm
+            import p_super
+            self._sub_props = {"C13": p_place.PlaceProp(), "C20": p_comm.CommProp(), "C14": p_super.SuperProp()}
+        return self._sub_props
+
+    @staticmethod
+    def _wrap(name, c):
+        return core.Case({"layer": "sub", "sub": name, "desc": c.desc}, c.line, c.impl,
+                         key=json.dumps(["sub", name, c.key if c.key is not None else c.line], default=str),
+                         nontrivial=c.nontrivial, tags=["layer:" + name] + list(c.tags))
+
+    def _sub_cases(self, tier, rng):
+        """(1) placement states: every reset after the first one on the same state object (any options, dirty
+        prior world); (2) communication wrapper: histories with several episodes (incl. a reset between the two
+        halves of a handshake); (3) super-agent wrapper: several episodes on one wrapper object.  Cases in the
+        out-of-domain streams of those modules (open findings) are left to their own checks."""
+        quick = tier == "quick"
+        subs = self._subs()
+        n = 0
+        for c in subs["C13"].cases(tier, rng):
+            if any(t.startswith("reset#") and t != "reset#0" for t in c.tags) and \
+                    not any(t.startswith("ood:") for t in c.tags) and rng.random() < 0.3:
+                # a sample across the whole stream (exhaustive small scopes and random worlds alike)
+                yield self._wrap("C13", c)
+                n += 1
+                if n >= (4000 if quick else 40000):
+                    break
+        n = 0
+        for c in subs["C20"].cases(tier, rng):
+            ops = c.desc.get("ops") if isinstance(c.desc, dict) else None
+            if ops and sum(1 for o in ops if o and o[0] == "r") >= 2 and not any(t.startswith("ood") for t in c.tags):
+                yield self._wrap("C20", c)
+                n += 1
+                if n >= (800 if quick else 20000):
+                    break
+        n = 0
+        for c in subs["C14"].cases(tier, rng):
+            if any(t.startswith("eps:") and t not in ("eps:0", "eps:1") for t in c.tags) and \
+                    not any(t.startswith("ood") for t in c.tags):
+                yield self._wrap("C14", c)
+                n += 1
+                if n >= (400 if quick else 8000):
+                    break
+
     def case_from_desc(self, d):
+        if d["layer"] == "sub":
+            return self._wrap(d["sub"], self._subs()[d["sub"]].case_from_desc(d["desc"]))
         if d["layer"] == "manager":
             return self._mgr_case(d["kind"], d["shuffle"], d["script"], d["ptape"], d["pops"], d["seed"], d["fops"])
         if d["layer"] == "openspiel":
@@ -190,12 +241,22 @@ class C08Prop(core.Prop):
                 for _ in range(rng.randint(1, 14)):
                     calls.append(["r"] if rng.random() < 0.25 else ["s", rng.randrange(10)])
                 yield self._gymabs_case(rng.randint(1, 5), calls)
+        yield from self._sub_cases(tier, rng)
 
     def interpret(self, reply, case):
+        if case.desc.get("layer") == "sub":
+            inner = core.Case(case.desc["desc"], case.line, case.impl, tags=case.tags)
+            v = self._subs()[case.desc["sub"]].interpret(reply, inner)
+            case.tags[:] = inner.tags
+            return v
         model, ms, is_ = reply
         return core.Verdict(wire.enc(model), ms == 1, is_ == 1)
 
     def shrink_candidates(self, desc):
+        if desc["layer"] == "sub":
+            for d in self._subs()[desc["sub"]].shrink_candidates(desc["desc"]):
+                yield {"layer": "sub", "sub": desc["sub"], "desc": d}
+            return
         if desc["layer"] == "manager":
             for k in range(len(desc["pops"])):
                 yield dict(desc, pops=desc["pops"][:k] + desc["pops"][k + 1:])
